@@ -62,6 +62,12 @@ class _Rewrite(ASTTransformVisitor):
         super().__init__()
         self.mode = mode
 
+    def visit_Un(self, node):
+        if self.mode == "hoist":
+            # a pass that removes a wrapper: the result is a node that EXISTED before the call
+            return self.visit(node.arg)
+        return self.generic_visit(node)
+
     def visit_Leaf(self, node):
         if self.mode == "rewrite-then-raise":
             # rebuild the first subtrees, then fail at a later sibling
@@ -116,7 +122,7 @@ def readonly_op(m: Machine, rng) -> str:
             _Count().visit(x)
             return "visitor"
         if k in (5, 6, 7):
-            mode = ["rewrite", "remove", rng.choice(["raise", "rewrite-then-raise"])][k - 5]
+            mode = [rng.choice(["rewrite", "hoist"]), "remove", rng.choice(["raise", "rewrite-then-raise"])][k - 5]
             try:
                 tv = _Rewrite(mode)
                 tv.limit = rng.randint(1, 4)
@@ -264,6 +270,42 @@ def directed_cases(rng, n):
         else:
             y = _Rewrite("rewrite").transform(zoo.Tup((x, zoo.Leaf(v=1))))
         fail = _full_compare(snap)
+        # (4) a transform that hoists an existing node (no origin) out of a wrapper that has one
+        gc.collect()
+        NODE_REGISTRY.clear()
+        inner = zoo.Leaf(v=rng.randint(0, 3))
+        outer = zoo.Un(zoo.Un(inner, origin=zoo.gen_origin(rng)), origin=zoo.gen_origin(rng))
+        top = zoo.Tup((outer, zoo.Leaf(v=9)), origin=zoo.gen_origin(rng))
+        snap4 = _full_snapshot([top] + [c for c, *_ in zoo.positions(top)])
+        try:
+            _Rewrite("hoist").transform(top)
+            f4 = _full_compare(snap4)
+        except Exception as e:  # noqa
+            f4 = f"hoisting transform raised {type(e).__name__}"
+        yield Case("directed:transform-hoists-existing", None, None, True, f"{zoo.show(top)}: visit_Un returns its (existing) argument",
+                   oracle_fail=f4, sig="frame|directed|transform-hoists-existing")
+        del inner, outer, top, snap4
+        # (5) free-form property values (annotation Any) holding nested containers: no serializer may touch them
+        import copy
+        from props.c14 import C14Holder
+        free = {"geometry": {"size": (800, 600), "pos": [(1, 2), (3, 4)]}, "tags": [("a", 1)], "t": (1, (2, 3))}
+        ref = copy.deepcopy(free)
+        inner_ids = (id(free["geometry"]), id(free["geometry"]["pos"]), id(free["tags"]))
+        h = C14Holder(key=None, payload=free, kid=C14Holder(payload=[free["geometry"]]))
+        f5 = None
+        for nm, fn in (("as_dict", lambda: h.as_dict()), ("to_json", lambda: h.to_json()), ("to_msgpck", lambda: h.to_msgpck()),
+                       ("to_yaml", lambda: h.to_yaml())):
+            try:
+                fn()
+            except Exception:  # noqa  (a format may refuse such values; what matters is that nothing is modified)
+                pass
+            if h.payload is not free or free != ref or repr(free) != repr(ref) or \
+                    inner_ids != (id(free["geometry"]), id(free["geometry"]["pos"]), id(free["tags"])):
+                f5 = f"{nm} changed a field value of an existing node: payload is now {free!r}"
+                break
+        yield Case("directed:free-form-values", None, None, True, "Holder(payload={nested dict / list / tuples}) through the four serializers",
+                   oracle_fail=f5, sig="frame|directed|free-form-values")
+        del h, free, ref
         yield Case("directed:falsy-twin", None, None, True, f"Falsy(n={x.n}) holder={holder is not None}; an equal node comes into being by {how}",
                    oracle_fail=fail, sig="frame|directed|falsy-twin")
         del x, y, holder, snap
